@@ -398,6 +398,23 @@ fn handle(sh: &Arc<Shared>, mut rq: Request, c: usize, m: usize) {
                 let r = rq.as_reader().read_to_string(&mut text).map(|_| ());
                 got = text.into_bytes();
                 r
+            } else if kind == "vectored_then_plain" {
+                // one vectored read, then the rest with the ordinary helper
+                let mut a = [0u8; 64];
+                let mut b = [0u8; 200];
+                let first = {
+                    let mut bufs = [std::io::IoSliceMut::new(&mut a), std::io::IoSliceMut::new(&mut b)];
+                    rq.as_reader().read_vectored(&mut bufs)
+                };
+                match first {
+                    Err(e) => Err(e),
+                    Ok(n) => {
+                        let na = n.min(a.len());
+                        got.extend_from_slice(&a[..na]);
+                        got.extend_from_slice(&b[..n - na]);
+                        rq.as_reader().read_to_end(&mut got).map(|_| ())
+                    }
+                }
             } else if kind == "vectored" {
                 // read_vectored into two small buffers until it reports the end of the body
                 let mut a = [0u8; 300];
